@@ -23,9 +23,22 @@ Record pfile := {
   pf_rows : list srow
 }.
 
+(* A window of failing storage operations that lasts exactly as long as one call (cleared before the
+   transaction ends):
+     FBefore      metadata reads fail from the start of the call: _resolve_table_schema -- the first thing both
+                  append_data and append_files do -- raises; the table schema must NOT be taken for absent
+     FMarker      writes of in-flight markers fail: append_data raises once its schema argument has been
+                  checked, before anything is written (append_files writes no marker)
+     FAfterWrite  metadata reads fail once the call has written something: append_data has validated, written
+                  its marker and its data file, and raises when it queues the file (append_files reads the
+                  metadata again); append_files itself writes nothing and is not affected *)
+Inductive fault := FBefore | FMarker | FAfterWrite.
+
 Inductive call :=
 | CRecords (arg : option ischema) (recs : list record)      (* tx.append_data(records, schema=arg) *)
-| CFiles (fs : list pfile).                                  (* tx.append_files(fs) *)
+| CFiles (fs : list pfile)                                   (* tx.append_files(fs) *)
+| CRecordsF (ft : fault) (arg : option ischema) (recs : list record)    (* the same calls under a storage fault *)
+| CFilesF (ft : fault) (fs : list pfile).
 
 Inductive tend := EndCommit (ok : bool) | EndRollback | EndAbandon.
 Record txn := { t_handle : Z; t_calls : list call; t_end : tend }.
@@ -34,6 +47,7 @@ Record txn := { t_handle : Z; t_calls : list call; t_end : tend }.
 Definition tag_of (o : outcome) : Z :=
   match o with Accepted => 0 | RejNoSchema => 1 | RejSchema => 2 | RejRecords => 3 | RejConvert => 4 | RejCommit => 5 end.
 Definition tag_files_refused : Z := 6.
+Definition tag_storage_fault : Z := 7.
 
 Definition footer_of (p : pfile) : aschema := match pf_footer p with Some a => a | None => [] end.
 Definition to_dfile (p : pfile) : dfile :=
@@ -72,7 +86,7 @@ Section TxMachine.
 
   (* tx.append_data: validate, convert, WRITE the data file, then queue it through append_files (which
      checks the file just written like any other) *)
-  Definition stage_records (w : world) (h : Z) (arg : option ischema) (recs : list record) : world * option dfile * list Z * Z :=
+  Definition stage_records (late_fault : bool) (w : world) (h : Z) (arg : option ischema) (recs : list record) : world * option dfile * list Z * Z :=
     match resolve (w_schema w) arg with
     | inr o => (w, None, [], tag_of o)
     | inl s =>
@@ -86,6 +100,7 @@ Section TxMachine.
         let f := {| df_id := w_next w; df_arrow := a; df_rows := rows; df_lo := lo; df_hi := hi |} in
         let w2 := with_store w1 (w_next w :: w_store w1) (w_next w + 1) in
         let p := {| pf_id := w_next w; pf_canonical := true; pf_exists := true; pf_parquet := true; pf_footer := Some a; pf_rows := rows |} in
+        if late_fault then (w2, None, [w_next w], tag_storage_fault) else   (* the file stays written, unqueued *)
         let (c2, ok) := check_files (w_schema w2) (cache_of w2 h) [p] in
         let w3 := set_cache w2 h c2 in
         if ok then (w3, Some f, [w_next w], 0) else (w3, None, [w_next w], tag_files_refused)
@@ -93,17 +108,29 @@ Section TxMachine.
     end.
 
   (* one call: the new world, the files this call wrote itself, its tag, and the files it ADDS to the queue *)
+  Definition call_records (late : bool) (w : world) (h : Z) (arg : option ischema) (recs : list record) : world * list Z * Z * list dfile :=
+    match stage_records late w h arg recs with
+    | (w', Some f, wr, t) => (w', wr, t, [f])
+    | (w', None, wr, t) => (w', wr, t, [])
+    end.
+
+  Definition call_files (w : world) (h : Z) (fs : list pfile) : world * list Z * Z * list dfile :=
+    let (c', ok) := check_files (w_schema w) (cache_of w h) fs in
+    let w1 := set_cache w h c' in
+    if ok then (w1, [], 0, map to_dfile fs) else (w1, [], tag_files_refused, []).
+
   Definition call_step (w : world) (h : Z) (c : call) : world * list Z * Z * list dfile :=
     match c with
-    | CRecords arg recs =>
-      match stage_records w h arg recs with
-      | (w', Some f, wr, t) => (w', wr, t, [f])
-      | (w', None, wr, t) => (w', wr, t, [])
+    | CRecords arg recs => call_records false w h arg recs
+    | CFiles fs => call_files w h fs
+    | CRecordsF FBefore _ _ | CFilesF FBefore _ => (w, [], tag_storage_fault, [])
+    | CRecordsF FMarker arg _ =>
+      match resolve (w_schema w) arg with
+      | inr o => (w, [], tag_of o, [])
+      | inl _ => (w, [], tag_storage_fault, [])
       end
-    | CFiles fs =>
-      let (c', ok) := check_files (w_schema w) (cache_of w h) fs in
-      let w1 := set_cache w h c' in
-      if ok then (w1, [], 0, map to_dfile fs) else (w1, [], tag_files_refused, [])
+    | CRecordsF FAfterWrite arg recs => call_records true w h arg recs
+    | CFilesF _ fs => call_files w h fs
     end.
 
   Definition enqueue (q : txstate) (wr : list Z) (added : list dfile) : txstate :=
@@ -127,8 +154,14 @@ Section TxMachine.
 
   Definition end_tx (w : world) (q : txstate) (e : tend) : world :=
     match e with
-    | EndCommit true => match q_files q with [] => w | _ => publish w (q_files q) end   (* empty transaction: no snapshot *)
-    | EndCommit false | EndRollback => with_store w (fold_right remove (w_store w) (q_written q)) (w_next w)
+    | EndCommit ok =>
+      match q_files q with
+      | [] => w            (* empty transaction: commit() returns at once -- no snapshot, nothing that could fail,
+                              and no cleanup either: a file written by a call that then raised stays an orphan *)
+      | _ => if ok then publish w (q_files q)
+             else with_store w (fold_right remove (w_store w) (q_written q)) (w_next w)
+      end
+    | EndRollback => with_store w (fold_right remove (w_store w) (q_written q)) (w_next w)
     | EndAbandon => w
     end.
 
